@@ -560,3 +560,76 @@ func c11DocSplit(r *lp.Run, rng *lp.Rand) {
 		one(sb.String(), lp.Pick(rng, []int{100, 100, 100, 20, 7, 3, 2}), "random")
 	}
 }
+
+// the listing printed under a located diagnostic (location.File.PrintListing): documents whose line count and
+// error line sit around the powers of ten; the rendering must not fail, must not contain a recovered Format panic
+// or the "cannot render" placeholder, must show the text of the highlighted line, and the width of the number
+// column must be the one the Lean model computes (driver tag lpad)
+func c11Listing(r *lp.Run) {
+	var sizes []int
+	for _, p := range []int{10, 100, 1000, 10000} {
+		for d := -2; d <= 6; d++ {
+			sizes = append(sizes, p+d)
+		}
+	}
+	sizes = append(sizes, 1, 2, 5, 50, 500, 5000)
+	for _, n := range sizes {
+		var sb strings.Builder
+		for i := 1; i <= n; i++ {
+			fmt.Fprintf(&sb, "k%d: v\n", i)
+		}
+		f := location.NewFile("doc.yml", "doc.yml", []byte(sb.String()))
+		for _, ctx := range []int{0, 1, 3, 5} {
+			for _, line := range []int{1, n / 2, n - 7, n - 6, n - 5, n - 4, n - 3, n - 2, n - 1, n, n + 1} {
+				if line < 1 {
+					continue
+				}
+				var out strings.Builder
+				var err error
+				pan := lp.Guard(func() string {
+					err = f.PrintListing(&out, "msg", location.Position{Line: line, Column: 1}, location.PrintListingOptions{Context: ctx}.WithoutColor())
+					return ""
+				})
+				r.PropCheck()
+				in := map[string]any{"lines": n, "line": line, "context": ctx}
+				text := out.String()
+				c := ctx
+				if c == 0 {
+					c = 3
+				}
+				hi := line - 1 + c + 1 // index of the last printed line (clamped to the number of newlines)
+				if hi > n {
+					hi = n
+				}
+				switch {
+				case pan != "":
+					r.Fail(lp.PropFail{Property: "C11", What: "rendering a located diagnostic panics", Input: in, Observed: pan, Expected: "a listing"})
+					continue
+				case err != nil:
+					r.Fail(lp.PropFail{Property: "C11", What: "rendering a located diagnostic fails for a line of the document", Input: in, Observed: err.Error(), Expected: "a listing"})
+					continue
+				case strings.Contains(text, "PANIC=") || strings.Contains(text, location.BugLine):
+					r.Fail(lp.PropFail{Property: "C11", What: "the listing under a located diagnostic holds a recovered panic / placeholder instead of a line", Input: in, Observed: truncN(text, 600), Expected: "line numbers and line texts"})
+					continue
+				case line <= n && !strings.Contains(text, fmt.Sprintf("%d | k%d: v", line, line)):
+					r.Fail(lp.PropFail{Property: "C11", What: "the listing does not show the reported line", Input: in, Observed: truncN(text, 600), Expected: fmt.Sprintf("a row '%d | k%d: v'", line, line)})
+					continue
+				}
+				// width of the number column, measured on the last row
+				rows := strings.Split(strings.TrimRight(text, "\n"), "\n")
+				last := rows[len(rows)-1]
+				width := "?"
+				if i := strings.Index(last, " | "); i >= 0 {
+					num := strings.TrimPrefix(last[:i], "\t")
+					if strings.HasPrefix(num, "→ ") {
+						num = strings.TrimPrefix(num, "→ ")
+					} else {
+						num = strings.TrimPrefix(num, "  ")
+					}
+					width = fmt.Sprint(len(num))
+				}
+				r.Case("lpad", fmt.Sprint(hi), width, fmt.Sprintf("lpad:%d", len(fmt.Sprint(hi+1))), hi+1 >= 100)
+			}
+		}
+	}
+}
